@@ -55,6 +55,8 @@ func main() {
 			os.Exit(2)
 		}
 		fmt.Printf("bindcache: %d locals of the functions under contract recorded in %s\n", n, vc.BindCacheFile)
+	case "sweep":
+		os.Exit(cmdSweep(os.Args[2:]))
 	case "replay":
 		os.Exit(cmdReplay(os.Args[2:]))
 	case "witness":
